@@ -4,4 +4,8 @@ set -e
 cd "$(dirname "$0")"
 export CARGO_NET_OFFLINE=true
 ( cd engine && cargo build --offline --profile verif )
+# sanitizer worker for C37/C38 (nightly + ASan, or the stable fallback)
+. tools/build_utilsan.sh
+build_utilsan
+echo "utilsan: $UTILSAN_BUILD ($UTILSAN_BIN)"
 echo "setup ok"
